@@ -105,16 +105,31 @@ async fn run(sc: Value) {
     std::fs::create_dir_all(&dir).unwrap();
     let cfg_path = dir.join("acts.toml");
     let mut toml = String::new();
+    let mut sqlite_db: Option<String> = None;
     if let Value::Object(c) = &sc["config"] {
         for (k, v) in c {
+            if k == "sqlite" {
+                // the six collections of the SQLite store plugin replace the memory ones (database file in the scratch directory)
+                sqlite_db = Some(dir.join("replay.db").to_string_lossy().to_string());
+                continue;
+            }
             if !v.is_null() {
                 toml.push_str(&format!("{} = {}\n", k, v));
             }
         }
     }
+    if let Some(db) = &sqlite_db {
+        toml.push_str(&format!("[sqlite]\ndatabase_url = \"{}\"\n", db));
+    }
     std::fs::write(&cfg_path, toml).unwrap();
-    let engine = EngineBuilder::new().set_config_source(&cfg_path).build().await.unwrap().start();
-    let _ = std::fs::remove_dir_all(&dir);
+    let mut builder = EngineBuilder::new().set_config_source(&cfg_path);
+    if sqlite_db.is_some() {
+        builder = builder.add_plugin(&acts_store_sqlite::SqliteStore);
+    }
+    let engine = builder.build().await.unwrap().start();
+    if sqlite_db.is_none() {
+        let _ = std::fs::remove_dir_all(&dir);
+    }
 
     acts::verif::set_trace(|pid, tid, how, old, new| {
         TRACE.lock().unwrap().push(json!({"pid": pid, "tid": tid, "how": how, "old": old, "new": new}));
@@ -490,5 +505,8 @@ async fn run(sc: Value) {
     let out = json!({"procs": procs, "messages": *obs.messages.lock().unwrap(), "events": *obs.events.lock().unwrap(), "results": results,
         "trace": *TRACE.lock().unwrap(), "snapshots": snapshots, "live": live, "stored_procs": stored_procs, "stored_tasks": stored_tasks, "stored_messages": stored_msgs});
     println!("{}", out);
+    if sqlite_db.is_some() {
+        let _ = std::fs::remove_dir_all(&dir);
+    }
     std::process::exit(0);
 }
